@@ -107,5 +107,63 @@ func TestBoundedC19Runs(t *testing.T) {
 			}
 		}
 	}
+	// two runs of the same byte, more than a window apart, both buffered when the parser builds its search structure
+	cases2 := 0
+	knownSeen := false
+	for _, m := range mks {
+		for il := 2; il <= 8; il += 2 {
+			for _, win := range []int{16, 64} {
+				for _, gapLen := range []int{win + 1, win + 32, 3 * win} {
+					for _, bv := range []int{'a', 0, 0xff} {
+						cfg := m.cfg(il, win, 32)
+						cfg.SetDefaults()
+						ps, err := cfg.NewParser()
+						if err != nil {
+							continue
+						}
+						run := bytes.Repeat([]byte{byte(bv)}, 128)
+						gap := make([]byte, gapLen)
+						for i := range gap {
+							gap[i] = byte(1 + (i*7+bv+1)%251)
+							if gap[i] == byte(bv) {
+								gap[i]++
+							}
+						}
+						data := append(append(append([]byte{}, run...), gap...), run...)
+						ps.Write(data)
+						var blk Block
+						pos := 0
+						for {
+							n, err := ps.Parse(&blk, 0)
+							if err != nil {
+								break
+							}
+							in1 := pos+n <= len(run)
+							in2 := pos >= len(run)+len(gap)
+							if (in1 || in2) && n >= 32 {
+								if len(blk.Literals) > m.maxLits(cfg) {
+									msg := fmt.Sprintf("%s %+v: block %d..%d inside a run of 0x%02x (two runs %d bytes apart) carries %d literal bytes: %+v", m.name, cfg, pos, pos+n, bv, gapLen, len(blk.Literals), blk.Sequences)
+									if m.name == "GSAP" && in2 {
+										// recorded finding: GSAP only looks at the two rank neighbours of a position; when both lie in the
+										// earlier run (offset >= WindowSize, possible because BufferSize > WindowSize) the equally long
+										// in-window match at offset 1 is never considered and the whole second run comes out as literals
+										if !knownSeen {
+											fmt.Printf("LZVC-KNOWN id=gsap-run-behind-window %s\n", msg)
+											knownSeen = true
+										}
+									} else {
+										t.Fatal(msg)
+									}
+								}
+								cases2++
+							}
+							pos += n
+						}
+					}
+				}
+			}
+		}
+	}
+	fmt.Printf("LZVC-BOUNDED name=runs-two cases=%d bound=7 parsers x 4 length parameters x WindowSize {16,64} x 3 gaps larger than the window x 3 byte values: every 32-byte block inside either of two runs of the same byte\n", cases2)
 	fmt.Printf("LZVC-BOUNDED name=runs cases=%d bound=7 parsers x InputLen/MinMatchLen variants 2..8 x WindowSize {1,2,1024} x BlockSize {32,33,64,200} x %d byte values x 4 prefixes (run from the buffer start, after 1 or 8 other bytes, inside a longer run): every block of at least 32 bytes inside the run\n", cases, len(byteVals))
 }
